@@ -58,7 +58,11 @@ fn main() {
     let seed: u64 = arg(&args, "--seed").and_then(|s| s.parse().ok()).unwrap_or(1);
     let steps: u64 = arg(&args, "--steps").and_then(|s| s.parse().ok()).unwrap_or(1000);
     let pname = arg(&args, "--profile").unwrap_or_else(|| "medium".into());
-    let prof = profile(&pname);
+    let mut prof = profile(&pname);
+    if pname == "fifo" {
+        // 14, 28 are capacities of hashbrown tables (16 and 32 buckets), 20 is not
+        prof.fit = [20, 14, 28][(arg(&args, "--seed").and_then(|s| s.parse::<u64>().ok()).unwrap_or(1) % 3) as usize];
+    }
     let crash_rate: f64 = arg(&args, "--crash-rate").and_then(|s| s.parse().ok()).unwrap_or(0.0);
     let forget_rate: f64 = arg(&args, "--forget-rate").and_then(|s| s.parse().ok()).unwrap_or(0.0);
     let segment: u64 = arg(&args, "--segment").and_then(|s| s.parse().ok()).unwrap_or(400);
@@ -259,10 +263,12 @@ fn main() {
             else if r < 880 {
                 let names = ["reserve", "try_reserve", "shrink_to", "shrink_to_fit"];
                 o = op(names[rng.gen_range(0..names.len())], c);
-                let n: i64 = match rng.gen_range(0..8) {
+                let n: i64 = match rng.gen_range(0..9) {
                     0 => 0,
                     1 => -1,
                     2 => -(rng.gen_range(1..100) as i64),
+                    // passes the overflow check of len + additional, fails inside the table
+                    8 => -1_000_000,
                     3 => len as i64,
                     4 => cap as i64,
                     5 => cap as i64 + 1,
@@ -296,7 +302,12 @@ fn main() {
             else if r < 975 {
                 // clone into a free id, or drop a clone
                 let free: Vec<u32> = (2..=(if calm { 2 } else { 4 })).filter(|d| !alive.contains(d)).collect();
-                if !free.is_empty() && rng.gen_bool(0.7) {
+                let others: Vec<u32> = alive.iter().cloned().filter(|x| *x != c).collect();
+                if !others.is_empty() && rng.gen_bool(0.3) {
+                    o = op("clone_from", c);
+                    o["d"] = json!(others[rng.gen_range(0..others.len())]);
+                }
+                else if !free.is_empty() && rng.gen_bool(0.7) {
                     o = op("clone", c);
                     o["d"] = json!(free[0]);
                 }
@@ -332,7 +343,7 @@ fn main() {
 
         let name = o["a"]["op"].as_str().unwrap().to_string();
 
-        if crash_rate > 0.0 && !["new", "drop"].contains(&name.as_str()) && !IterKinds::any(&name)
+        if crash_rate > 0.0 && !["new", "drop", "clone_from"].contains(&name.as_str()) && !IterKinds::any(&name)
                 && rng.gen_bool(crash_rate) {
             let kinds = ["hash", "eq", "clone", "size", "closure", "closure_after"];
             let kind = match name.as_str() {
@@ -340,7 +351,10 @@ fn main() {
                 "clone" => if rng.gen_bool(0.6) { "clone" } else { "hash" },
                 _ => kinds[rng.gen_range(0..4)]
             };
-            o["crash"] = json!({"kind": kind, "n": rng.gen_range(1..6)});
+            // half of the panics early in the call, half anywhere up to one callback per entry
+            let biggest = session.caches.values().map(|c| c.len()).max().unwrap_or(0) as u32;
+            let n = if rng.gen_bool(0.5) { rng.gen_range(1..6) } else { rng.gen_range(1..=(biggest + 4)) };
+            o["crash"] = json!({"kind": kind, "n": n});
         }
 
         let ev = session.exec(&o);
